@@ -41,6 +41,10 @@ type LinearState struct {
 
 	cachedRules *ruleCache
 
+	// expired holds the ids of the expired items that readers have
+	// seen and that purge() will remove.
+	expired expiredIds
+
 	store Storage
 
 	addHook AddHookFn
@@ -209,7 +213,10 @@ func (s *LinearState) Rem(ctx *Context, id string) (bool, error) {
 		}
 	}
 
-	return s.rem(ctx, id, true)
+	done, err := s.rem(ctx, id, true)
+	// The cascade searches for dependents and can meet expired items.
+	s.purge(ctx)
+	return done, err
 }
 
 func (s *LinearState) rem(ctx *Context, id string, lock bool) (bool, error) {
@@ -267,7 +274,9 @@ func (s *LinearState) deleteDependencies(ctx *Context, id string) error {
 }
 
 func (s *LinearState) Search(ctx *Context, pattern Map) (*SearchResults, error) {
-	return s.search(ctx, pattern, true)
+	srs, err := s.search(ctx, pattern, true)
+	s.purge(ctx)
+	return srs, err
 }
 
 func (s *LinearState) search(ctx *Context, pattern Map, lock bool) (*SearchResults, error) {
@@ -342,6 +351,8 @@ func (s *LinearState) doFindRules(ctx *Context, event Map) (map[string]Map, erro
 	// We could call Search(), but we'll try to be a bit
 	// more efficient here.
 	acc := make(map[string]Map)
+	// Deferred first: runs after the read lock is released.
+	defer s.purge(ctx)
 	s.slock(ctx, true)
 	defer s.sunlock(ctx, true)
 	now := time.Now().UTC().Unix()
@@ -460,6 +471,7 @@ func (s *LinearState) Delete(ctx *Context) error {
 
 func (s *LinearState) Get(ctx *Context, id string) (Map, error) {
 	fact, err := s.get(ctx, id, true)
+	s.purge(ctx)
 	return fact, err
 }
 
@@ -490,7 +502,9 @@ func (s *LinearState) get(ctx *Context, id string, getLock bool) (Map, error) {
 	return rf.M, nil
 }
 
-// expire checks for expiration and removes the fact if expired.
+// expire checks for expiration.  An expired fact is not removed here
+// (the callers hold at most the read lock): its id is noted, and
+// purge() removes it once the caller has released its lock.
 //
 // This method is mostly generic and could be dissociated from
 // IndexedState.
@@ -502,17 +516,40 @@ func (s *LinearState) expire(ctx *Context, id string, fact map[string]interface{
 	}
 
 	if expired {
-		// Lots of things can go wrong and get us in an inconsistent state.
-		// ToDo: Be more careful.
-
 		Log(DEBUG, ctx, "Expire", "fact", fact, "expired", expired, "now", now)
-
-		if _, err := s.rem(ctx, id, false); err != nil {
-			Log(ERROR, ctx, "LinearState.expire", "name", s.Name,
-				"when", "Rem", "error", err)
-			return true, err
-		}
+		s.expired.note(id)
 	}
 
 	return expired, nil
+}
+
+// purge removes (from memory and from storage, with their
+// dependents) the expired items that readers have noted.
+//
+// Takes the write lock, so the caller must not hold the state's
+// lock.  A failed removal is logged.
+func (s *LinearState) purge(ctx *Context) {
+	ids := s.expired.take()
+	if len(ids) == 0 {
+		return
+	}
+	s.slock(ctx, false)
+	defer s.sunlock(ctx, false)
+	// Removing an item searches for its dependents, and that
+	// search can note more expired items.
+	for ; 0 < len(ids); ids = s.expired.take() {
+		for _, id := range ids {
+			rf, have := s.Facts[id]
+			if !have {
+				continue
+			}
+			// The id could have been given to a new fact since.
+			if expired, _ := checkExpiration(ctx, rf.M, 0); !expired {
+				continue
+			}
+			if _, err := s.rem(ctx, id, false); err != nil {
+				Log(ERROR, ctx, "LinearState.purge", "name", s.Name, "id", id, "error", err)
+			}
+		}
+	}
 }
